@@ -395,8 +395,9 @@ func runC18(c *ctx) {
 		}
 		c18Case(c, t, wrapped, sets, pick(c.r, dictIDs), ops, "random")
 	}
+	runC18Types(c)
 }
 
 func init() {
-	register("C18", []string{"Model.GoTime", "Gen.TypeGo", "Model.Schema", "Model.Value", "Model.Resource", "Model.Heap", "Model.C18"}, runC18)
+	register("C18", []string{"Model.GoTime", "Gen.TypeGo", "Model.Schema", "Model.Value", "Model.Resource", "Model.Heap", "Model.SoftRes", "Model.C14", "Model.TypeHeap", "Model.C18"}, runC18)
 }
